@@ -15,7 +15,7 @@ def Coherent [Geo V N] (dim3 : Bool) (s : Mesh V N) : Prop :=
 /-! ## stage specifications -/
 
 theorem mergeStep_spec [Geo V N] {s s1 : Mesh V N} {dd ddup : Bool} (h : mergeStep s dd ddup = some s1) :
-    s1.topology = s.topology ∧ s1.cc = s.cc ∧ s1.pn = s.pn ∧ s1.flags = s.flags := by
+    s1.topology = s.topology ∧ s1.cc = s.cc ∧ s1.pn = s.pn ∧ s1.flags = s.flags ∧ s1.qbvh = s.qbvh := by
   unfold mergeStep at h
   split at h
   · cases h
@@ -24,7 +24,8 @@ theorem mergeStep_spec [Geo V N] {s s1 : Mesh V N} {dd ddup : Bool} (h : mergeSt
 theorem topoStepW_spec {s s1 : Mesh V N} {del : Bool} {r} (h : topoStepW s del = some (s1, r)) :
     s1.vertices = s.vertices ∧ s1.indices = (if del then deleteBad s.indices else s.indices) ∧
     s1.cc = s.cc ∧ s1.pn = s.pn ∧ s1.flags = s.flags ∧
-    s1.topology = (match topoOf s1.vertices.length s1.indices with | some t => some t | none => s.topology) := by
+    s1.topology = (match topoOf s1.vertices.length s1.indices with | some t => some t | none => s.topology) ∧
+    s1.qbvh = s.qbvh := by
   unfold topoStepW at h
   cases del <;> simp only [Bool.false_eq_true, if_false, if_true] at h ⊢ <;>
   · split at h
@@ -35,17 +36,17 @@ theorem topoStepW_spec {s s1 : Mesh V N} {del : Bool} {r} (h : topoStepW s del =
 theorem topoStep_spec {s s1 : Mesh V N} {del : Bool} {r} (h : topoStep s del = some (s1, r)) :
     s1.vertices = s.vertices ∧ s1.indices = (if del then deleteBad s.indices else s.indices) ∧
     s1.cc = s.cc ∧ s1.pn = s.pn ∧ s1.flags = s.flags ∧
-    s1.topology = topoOf s1.vertices.length s1.indices := by
+    s1.topology = topoOf s1.vertices.length s1.indices ∧ s1.qbvh = s.qbvh := by
   unfold topoStep at h
   have := topoStepW_spec h
   simp only at this
-  obtain ⟨a, b, c, d, e, f⟩ := this
-  refine ⟨a, b, c, d, e, ?_⟩
+  obtain ⟨a, b, c, d, e, f, g⟩ := this
+  refine ⟨a, b, c, d, e, ?_, g⟩
   rw [f]; split <;> simp_all
 
 theorem ccStep_spec {s s1 : Mesh V N} (h : ccStep s = some s1) :
     s1.vertices = s.vertices ∧ s1.indices = s.indices ∧ s1.topology = s.topology ∧ s1.pn = s.pn ∧ s1.flags = s.flags ∧
-    s1.cc = computeCC s.vertices.length s.indices := by
+    s1.cc = computeCC s.vertices.length s.indices ∧ s1.qbvh = s.qbvh := by
   unfold ccStep at h
   split at h
   · cases h
@@ -53,7 +54,7 @@ theorem ccStep_spec {s s1 : Mesh V N} (h : ccStep s = some s1) :
 
 theorem pnStep_spec [Geo V N] {s s1 : Mesh V N} (h : pnStep s = some s1) :
     s1.vertices = s.vertices ∧ s1.indices = s.indices ∧ s1.topology = s.topology ∧ s1.cc = s.cc ∧ s1.flags = s.flags ∧
-    s1.pn = computePN s.vertices s.indices := by
+    s1.pn = computePN s.vertices s.indices ∧ s1.qbvh = s.qbvh := by
   unfold pnStep at h
   split at h
   · cases h
@@ -190,7 +191,7 @@ theorem topoStage_inv [Geo V N] {dim3 : Bool} {f d d1 : Flags} {s s1 : Mesh V N}
   · rename_i hd
     simp only [Option.map_eq_some_iff, Prod.mk.injEq] at h
     obtain ⟨⟨s', r'⟩, hm, rfl, rfl, rfl⟩ := h
-    obtain ⟨ev, ei, e2, e3, _, et⟩ := topoStep_spec hm
+    obtain ⟨ev, ei, e2, e3, _, et, _⟩ := topoStep_spec hm
     simp only at ev ei e2 e3 et ⊢
     by_cases hl : s'.indices.length = s.indices.length
     · -- buffers unchanged
@@ -242,7 +243,7 @@ theorem ccStage_inv [Geo V N] {dim3 : Bool} {f d : Flags} {dt dp : Bool} {s s1 :
   unfold ccStage at h
   split at h
   · rename_i hd
-    obtain ⟨ev, ei, e1, e3, _, ec⟩ := ccStep_spec h
+    obtain ⟨ev, ei, e1, e3, _, ec, _⟩ := ccStep_spec h
     constructor
     · intro h; rw [e1]; exact hi.t0 h
     · intro h1 h2; rw [e1, ev, ei]; exact hi.t1 h1 h2
@@ -265,7 +266,7 @@ theorem pnStage_inv [Geo V N] {dim3 : Bool} {f d : Flags} {dt dc : Bool} {s s1 :
   split at h
   · rename_i hd
     simp only [Bool.and_eq_true] at hd
-    obtain ⟨ev, ei, e1, e2, _, ep⟩ := pnStep_spec h
+    obtain ⟨ev, ei, e1, e2, _, ep, _⟩ := pnStep_spec h
     constructor
     · intro h; rw [e1]; exact hi.t0 h
     · intro h1 h2; rw [e1, ev, ei]; exact hi.t1 h1 h2
@@ -302,12 +303,70 @@ theorem inv_final [Geo V N] {dim3 : Bool} {f : Flags} {s : Mesh V N} (hi : Inv d
     · simp [hi.c0 h]
     · simp [hi.c1 h rfl]
 
+/-- the two meshes agree on everything but the QBVH and the flags -/
+def SameData (s t : Mesh V N) : Prop :=
+  t.vertices = s.vertices ∧ t.indices = s.indices ∧ t.pn = s.pn ∧ t.topology = s.topology ∧ t.cc = s.cc
+
+theorem inv_of_same [Geo V N] {dim3 : Bool} {f : Flags} {dt dc dp : Bool} {s t : Mesh V N}
+    (hi : Inv dim3 f dt dc dp s) (h : SameData s t) : Inv dim3 f dt dc dp t := by
+  obtain ⟨h1, h2, h3, h4, h5⟩ := h
+  constructor
+  · rw [h4]; exact hi.t0
+  · rw [h4, h1, h2]; exact hi.t1
+  · rw [h5]; exact hi.c0
+  · rw [h5, h1, h2]; exact hi.c1
+  · rw [h3]; exact hi.p0
+  · rw [h3, h1, h2]; exact hi.p1
+  · exact hi.st
+  · exact hi.sc
+  · exact hi.sp
+
+theorem coherent_of_same [Geo V N] {dim3 : Bool} {s t : Mesh V N} (hc : Coherent dim3 s) (h : SameData s t)
+    (hf : t.flags = s.flags) : Coherent dim3 t := by
+  obtain ⟨h1, h2, h3, h4, h5⟩ := h
+  unfold Coherent at hc ⊢
+  simp only [Mesh.derived] at hc ⊢
+  rw [h1, h2, h3, h4, h5, hf]; exact hc
+
+theorem rebuildQbvh_spec {s t : Mesh V N} (h : rebuildQbvh s = some t) :
+    SameData s t ∧ t.flags = s.flags ∧ t.qbvh = allCoords s.vertices s.indices ∧ t.qbvh.isSome = true := by
+  unfold rebuildQbvh at h
+  split at h
+  · cases h
+  · rename_i cs hcs
+    cases h
+    exact ⟨⟨rfl, rfl, rfl, rfl, rfl⟩, rfl, hcs.symm, rfl⟩
+
+theorem qbvhStage_spec {n : Nat} {s t : Mesh V N} (h : qbvhStage n s = some t) :
+    SameData s t ∧ t.flags = s.flags ∧
+    t.qbvh = (if n != s.indices.length then allCoords s.vertices s.indices else s.qbvh) := by
+  unfold qbvhStage at h
+  split at h
+  · rename_i hn
+    obtain ⟨a, b, c, _⟩ := rebuildQbvh_spec h
+    exact ⟨a, b, by rw [c, if_pos hn]⟩
+  · rename_i hn
+    cases h; exact ⟨⟨rfl, rfl, rfl, rfl, rfl⟩, rfl, by rw [if_neg hn]⟩
+
+theorem ensureQbvh_spec {s t : Mesh V N} (h : ensureQbvh s = some t) :
+    SameData s t ∧ t.flags = s.flags ∧
+    t.qbvh = (if s.qbvh.isNone then allCoords s.vertices s.indices else s.qbvh) ∧ t.qbvh.isSome = true := by
+  unfold ensureQbvh at h
+  split at h
+  · rename_i hn
+    obtain ⟨a, b, c, d⟩ := rebuildQbvh_spec h
+    exact ⟨a, b, by rw [c, if_pos hn], d⟩
+  · rename_i hn
+    cases h
+    refine ⟨⟨rfl, rfl, rfl, rfl, rfl⟩, rfl, by rw [if_neg hn], ?_⟩
+    cases hq : s.qbvh <;> simp_all
+
 /-- `set_flags` (with the fix) re-establishes coherence from any coherent state -/
 theorem setFlags_coherent' [Geo V N] {dim3 : Bool} {s s' : Mesh V N} {f : Flags} {r : Option TopoErr}
     (hc : Coherent dim3 s) (h : setFlags dim3 s f = some (s', r)) : Coherent dim3 s' := by
   unfold setFlags at h
   simp only [Option.bind_eq_some_iff] at h
-  obtain ⟨⟨s1, d1⟩, h1, ⟨s2, r2, d2⟩, h2, s3, h3, s4, h4, _, _, h6⟩ := h
+  obtain ⟨⟨s1, d1⟩, h1, ⟨s2, r2, d2⟩, h2, s3, h3, s4, h4, s5, h5, h6⟩ := h
   simp only [Option.some.injEq, Prod.mk.injEq] at h6
   obtain ⟨rfl, rfl⟩ := h6
   have i0 := drop_inv dim3 s f hc
@@ -315,7 +374,7 @@ theorem setFlags_coherent' [Geo V N] {dim3 : Bool} {s s' : Mesh V N} {f : Flags}
   have i2 := topoStage_inv i1 h2
   have i3 := ccStage_inv i2 h3
   have i4 := pnStage_inv i3 h4
-  exact inv_final i4
+  exact inv_final (inv_of_same i4 (qbvhStage_spec h5).1)
 
 /-! ## connected components do not see the orientation of the triangles -/
 
@@ -585,7 +644,7 @@ theorem reverse_coherent' [Geo V N] {dim3 : Bool} (hl : dim3 = true → LawfulGe
       · cases h
       · rename_i s3 r hts
         cases h
-        obtain ⟨ev, ei, e2, e3, ef, et⟩ := topoStep_spec hts
+        obtain ⟨ev, ei, e2, e3, ef, et, _⟩ := topoStep_spec hts
         simp only [if_false, Bool.false_eq_true] at ev ei e2 e3 ef et
         refine ⟨by rw [e3]; exact hp, ?_, ?_⟩
         · rw [et, ef]; simp [htf]
@@ -605,7 +664,7 @@ theorem reverse_coherent' [Geo V N] {dim3 : Bool} (hl : dim3 = true → LawfulGe
       · cases h
       · rename_i s3 r hts
         cases h
-        obtain ⟨ev, ei, e2, e3, ef, et⟩ := topoStep_spec hts
+        obtain ⟨ev, ei, e2, e3, ef, et, _⟩ := topoStep_spec hts
         simp only [if_false, Bool.false_eq_true] at ev ei e2 e3 ef et
         refine ⟨?_, ?_, ?_⟩
         · rw [e3, ev, ei, ef, hp]
@@ -622,17 +681,14 @@ theorem reverse_coherent' [Geo V N] {dim3 : Bool} (hl : dim3 = true → LawfulGe
 
 theorem buildCore_eq_some [Geo V N] {dim3 : Bool} {vs : List V} {idx : List Tri} {f : Flags} {s : Mesh V N}
     (h : buildCore dim3 vs idx f = some s) :
-    ∃ r, setFlags dim3 (blank vs idx) f = some (s, r) ∧ rebuildQbvh s = some () := by
+    ∃ s1 r, setFlags dim3 (blank vs idx) f = some (s1, r) ∧ ensureQbvh s1 = some s := by
   unfold buildCore at h
   cases hs : setFlags dim3 (blank (N := N) vs idx) f with
   | none => rw [hs] at h; cases h
   | some sr =>
     obtain ⟨s1, r⟩ := sr
     rw [hs] at h
-    simp only at h
-    cases hq : rebuildQbvh s1 with
-    | none => rw [hq] at h; cases h
-    | some u => rw [hq] at h; cases h; exact ⟨r, rfl, hq⟩
+    exact ⟨s1, r, rfl, h⟩
 
 theorem withFlags_eq_ok [Geo V N] {dim3 : Bool} {vs : List V} {idx : List Tri} {f : Flags} {s : Mesh V N}
     (h : withFlags dim3 vs idx f = .ok s) : idx.isEmpty = false ∧ buildCore dim3 vs idx f = some s := by
@@ -742,26 +798,90 @@ theorem setFlags_flags [Geo V N] {dim3 : Bool} {s s' : Mesh V N} {f : Flags} {r 
     (h : setFlags dim3 s f = some (s', r)) : s'.flags = f := by
   unfold setFlags at h
   simp only [Option.bind_eq_some_iff] at h
-  obtain ⟨_, _, _, _, _, _, s4, _, _, _, h6⟩ := h
+  obtain ⟨_, _, _, _, _, _, _, _, s5, _, h6⟩ := h
   simp only [Option.some.injEq, Prod.mk.injEq] at h6
   obtain ⟨rfl, _⟩ := h6
   rfl
 
 theorem withFlags_flags [Geo V N] {dim3 : Bool} {vs : List V} {idx : List Tri} {f : Flags} {s : Mesh V N}
     (h : withFlags dim3 vs idx f = .ok s) : s.flags = f := by
-  obtain ⟨r, hs, _⟩ := buildCore_eq_some (withFlags_eq_ok h).2
+  obtain ⟨s1, r, hs, he⟩ := buildCore_eq_some (withFlags_eq_ok h).2
+  rw [(ensureQbvh_spec he).2.1]
   exact setFlags_flags hs
 
+/-- none of the stages before the last touches the QBVH -/
+theorem stages_qbvh [Geo V N] {dim3 : Bool} {s0 t1 t2 t3 t4 : Mesh V N} {f d0 d1 d2 : Flags} {r2 : Option TopoErr}
+    (h1 : mergeStage s0 f d0 = some (t1, d1)) (h2 : topoStage t1 f d1 = some (t2, r2, d2))
+    (h3 : ccStage t2 d2 = some t3) (h4 : pnStage dim3 t3 d2 = some t4) : t4.qbvh = s0.qbvh := by
+  have a1 : t1.qbvh = s0.qbvh := by
+    unfold mergeStage at h1
+    split at h1
+    · simp only [Option.map_eq_some_iff, Prod.mk.injEq] at h1
+      obtain ⟨s', hm, rfl, _⟩ := h1
+      exact (mergeStep_spec hm).2.2.2.2
+    · cases h1; rfl
+  have a2 : t2.qbvh = t1.qbvh := by
+    unfold topoStage at h2
+    split at h2
+    · simp only [Option.map_eq_some_iff, Prod.mk.injEq] at h2
+      obtain ⟨⟨s', r'⟩, hm, rfl, _, _⟩ := h2
+      exact (topoStep_spec hm).2.2.2.2.2.2
+    · cases h2; rfl
+  have a3 : t3.qbvh = t2.qbvh := by
+    unfold ccStage at h3
+    split at h3
+    · exact (ccStep_spec h3).2.2.2.2.2.2
+    · cases h3; rfl
+  have a4 : t4.qbvh = t3.qbvh := by
+    unfold pnStage at h4
+    split at h4
+    · exact (pnStep_spec h4).2.2.2.2.2.2
+    · cases h4; rfl
+  rw [a4, a3, a2, a1]
+
+@[simp] theorem dropStage_qbvh (dim3 : Bool) (s : Mesh V N) (f : Flags) : (dropStage dim3 s f).qbvh = s.qbvh := by
+  unfold dropStage; split <;> split <;> split <;> rfl
+
+/-- `set_flags` rebuilds the QBVH exactly when the number of triangles changed -/
+theorem setFlags_qbvh [Geo V N] {dim3 : Bool} {s s' : Mesh V N} {f : Flags} {r : Option TopoErr}
+    (h : setFlags dim3 s f = some (s', r)) :
+    s'.qbvh = (if s.indices.length != s'.indices.length then allCoords s'.vertices s'.indices else s.qbvh) := by
+  unfold setFlags at h
+  simp only [Option.bind_eq_some_iff] at h
+  obtain ⟨⟨t1, d1⟩, h1, ⟨t2, r2, d2⟩, h2, t3, h3, t4, h4, t5, h5, h6⟩ := h
+  simp only [Option.some.injEq, Prod.mk.injEq] at h6
+  obtain ⟨rfl, _⟩ := h6
+  obtain ⟨⟨qv, qi, _⟩, _, qq⟩ := qbvhStage_spec h5
+  have q4 := stages_qbvh h1 h2 h3 h4
+  simp only [dropStage_qbvh] at q4
+  simp only
+  rw [qq, q4, qv, qi]
+
+/-- the QBVH of a freshly built mesh was built from the final buffers -/
+theorem buildCore_qbvh [Geo V N] {dim3 : Bool} {vs : List V} {idx : List Tri} {f : Flags} {s : Mesh V N}
+    (h : buildCore dim3 vs idx f = some s) : s.qbvh = allCoords s.vertices s.indices ∧ s.qbvh.isSome = true := by
+  obtain ⟨s1, r, hs, he⟩ := buildCore_eq_some h
+  obtain ⟨⟨ev, ei, _⟩, _, eq, hsome⟩ := ensureQbvh_spec he
+  refine ⟨?_, hsome⟩
+  rw [eq, ev, ei, setFlags_qbvh hs]
+  have : (blank (N := N) vs idx).qbvh = none := rfl
+  rw [this]
+  split <;> simp
+
+theorem withFlags_qbvh [Geo V N] {dim3 : Bool} {vs : List V} {idx : List Tri} {f : Flags} {s : Mesh V N}
+    (h : withFlags dim3 vs idx f = .ok s) : s.qbvh = allCoords s.vertices s.indices ∧ s.qbvh.isSome = true :=
+  buildCore_qbvh (withFlags_eq_ok h).2
+
 theorem mesh_ext {s t : Mesh V N} (h1 : s.vertices = t.vertices) (h2 : s.indices = t.indices)
-    (h3 : s.derived = t.derived) (h4 : s.flags = t.flags) : s = t := by
+    (h3 : s.derived = t.derived) (h4 : s.flags = t.flags) (h5 : s.qbvh = t.qbvh) : s = t := by
   cases s; cases t
   simp only [Mesh.derived, Derived.mk.injEq] at h3
   simp_all
 
-/-- two coherent meshes with the same buffers and flags are equal -/
+/-- two coherent meshes with the same buffers, flags and QBVH are equal -/
 theorem coherent_unique [Geo V N] {dim3 : Bool} {s t : Mesh V N} (hs : Coherent dim3 s) (ht : Coherent dim3 t)
-    (h1 : s.vertices = t.vertices) (h2 : s.indices = t.indices) (h4 : s.flags = t.flags) : s = t := by
-  apply mesh_ext h1 h2 _ h4
+    (h1 : s.vertices = t.vertices) (h2 : s.indices = t.indices) (h4 : s.flags = t.flags) (h5 : s.qbvh = t.qbvh) : s = t := by
+  apply mesh_ext h1 h2 _ h4 h5
   unfold Coherent at hs ht
   rw [hs, ht, h1, h2, h4]
 
@@ -864,25 +984,29 @@ theorem topoStage_blank_idem {vs : List V} {idx : List Tri} {f d2 : Flags} {s2 :
     simp [blank, htf]
 
 /-- if no merging flag is set, rebuilding a fresh mesh from its own buffers reproduces it exactly -/
-theorem setFlags_blank_noMerge_idem [Geo V N] {dim3 : Bool} {vs : List V} {idx : List Tri} {f : Flags} {s : Mesh V N}
-    {r : Option TopoErr} (hm : f.mergeFamily = false) (h : setFlags dim3 (blank vs idx) f = some (s, r)) :
-    setFlags dim3 (blank s.vertices s.indices) f = some (s, r) := by
-  unfold setFlags at h ⊢
-  rw [dropStage_blank] at h ⊢
+theorem buildCore_noMerge_idem [Geo V N] {dim3 : Bool} {vs : List V} {idx : List Tri} {f : Flags} {s : Mesh V N}
+    (hm : f.mergeFamily = false) (h : buildCore dim3 vs idx f = some s) :
+    buildCore dim3 s.vertices s.indices f = some s := by
+  obtain ⟨hq, hqs⟩ := buildCore_qbvh h
+  obtain ⟨s1, r, hs, he⟩ := buildCore_eq_some h
+  obtain ⟨⟨ev, ei, ep, et, ec⟩, ef, _, _⟩ := ensureQbvh_spec he
+  have hf1 := setFlags_flags hs
+  unfold setFlags at hs
+  rw [dropStage_blank] at hs
   have e4 : ∀ (a : List V) (b : List Tri), (blank (N := N) a b).flags = Flags.empty := fun _ _ => rfl
-  simp only [e4, diff_empty] at h ⊢
+  simp only [e4, diff_empty] at hs
   have hms : ∀ b : Mesh V N, mergeStage b f f = some (b, f) := by
     intro b; unfold mergeStage; simp [hm]
-  rw [hms] at h ⊢
-  simp only [Option.bind_some] at h ⊢
-  simp only [Option.bind_eq_some_iff] at h
-  obtain ⟨⟨s2, r2, d2⟩, h2, s3, h3, s4, h4, _, h5, h6⟩ := h
+  rw [hms] at hs
+  simp only [Option.bind_some] at hs
+  simp only [Option.bind_eq_some_iff] at hs
+  obtain ⟨⟨s2, r2, d2⟩, h2, s3, h3, s4, h4, s5, h5, h6⟩ := hs
   simp only [Option.some.injEq, Prod.mk.injEq] at h6
   obtain ⟨rfl, rfl⟩ := h6
   have hd2 := topoStage_full h2
   subst hd2
   obtain ⟨hv, h2'⟩ := topoStage_blank_idem h2
-  -- buffers of the later stages
+  have q4 : s4.qbvh = none := stages_qbvh (hms _) h2 h3 h4
   have b3 : s3.vertices = s2.vertices ∧ s3.indices = s2.indices := by
     unfold ccStage at h3
     split at h3
@@ -893,15 +1017,44 @@ theorem setFlags_blank_noMerge_idem [Geo V N] {dim3 : Bool} {vs : List V} {idx :
     split at h4
     · obtain ⟨a, b, _⟩ := pnStep_spec h4; exact ⟨a, b⟩
     · cases h4; exact ⟨rfl, rfl⟩
-  have ev : s4.vertices = vs := by rw [b4.1, b3.1, hv]
-  have ei : s4.indices = s2.indices := by rw [b4.2, b3.2]
-  rw [ev, ei, h2']
+  obtain ⟨⟨v5, i5, p5, t5, c5⟩, f5, _⟩ := qbvhStage_spec h5
+  simp only at ev ei ep et ec ef
+  have evs : s.vertices = vs := by rw [ev, v5, b4.1, b3.1, hv]
+  have eis : s.indices = s2.indices := by rw [ei, i5, b4.2, b3.2]
+  -- the second build
+  unfold buildCore setFlags
+  rw [dropStage_blank]
+  simp only [e4, diff_empty]
+  rw [hms]
+  simp only [Option.bind_some]
+  rw [evs, eis, h2']
   simp only [Option.bind_some, h3, h4]
-  have hq : qbvhStage s2.indices.length s4 = some () := by
-    unfold qbvhStage; simp [ei]
   have hb : (blank (N := N) vs s2.indices).indices = s2.indices := rfl
-  rw [hb, hq]
-  simp [ev, ei]
+  have hq' : qbvhStage s2.indices.length s4 = some s4 := by
+    unfold qbvhStage
+    have : s4.indices.length = s2.indices.length := by rw [b4.2, b3.2]
+    simp [this]
+  rw [hb, hq']
+  simp only [Option.bind_some]
+  -- `ensureQbvh` rebuilds; the result is `s`
+  unfold ensureQbvh
+  simp only [q4, Option.isNone_none, if_true]
+  unfold rebuildQbvh
+  simp only
+  have hc : allCoords s4.vertices s4.indices = s.qbvh := by
+    rw [hq, ev, ei, v5, i5]
+  cases hq0 : s.qbvh with
+  | none => rw [hq0] at hqs; cases hqs
+  | some cs =>
+    rw [hq0] at hc
+    simp only [hc]
+    congr 1
+    apply mesh_ext
+    · simp only; rw [ev, v5]
+    · simp only; rw [ei, i5]
+    · simp only [Mesh.derived]; rw [ep, et, ec, p5, t5, c5]
+    · simp only; rw [ef]
+    · simp only; exact hq0.symm
 
 /-! ## after `delete_bad_topology_triangles` the topology computation cannot fail -/
 
@@ -1070,7 +1223,7 @@ theorem topoStageW_inv [Geo V N] {dim3 : Bool} {f d : Flags} {s s1 : Mesh V N} {
   unfold topoStageW at h
   split at h
   · rename_i hd
-    obtain ⟨ev, ei, e2, e3, _, et⟩ := topoStepW_spec h
+    obtain ⟨ev, ei, e2, e3, _, et, _⟩ := topoStepW_spec h
     have hidx : s1.indices = s.indices := by
       rw [ei]; split
       · rename_i hdel; exact hb hd hdel
@@ -1106,7 +1259,7 @@ theorem setFlagsW_coherent_partial' [Geo V N] {dim3 : Bool} {s s' : Mesh V N} {f
     (h : setFlagsW dim3 s f = some (s', r)) : Coherent dim3 s' := by
   unfold setFlagsW at h
   simp only [Option.bind_eq_some_iff] at h
-  obtain ⟨s1, hm, ⟨s2, r2⟩, ht, s3, hcs, s4, hps, _, _, h6⟩ := h
+  obtain ⟨s1, hm, ⟨s2, r2⟩, ht, s3, hcs, s4, hps, s5, h5, h6⟩ := h
   simp only [Option.some.injEq, Prod.mk.injEq] at h6
   obtain ⟨rfl, rfl⟩ := h6
   have hs1 : s1 = dropStageW dim3 s f := by
@@ -1116,7 +1269,7 @@ theorem setFlagsW_coherent_partial' [Geo V N] {dim3 : Bool} {s s' : Mesh V N} {f
   have i2 := topoStageW_inv i0 (by simpa using t2) (by simpa using h3) ht
   have i3 := ccStage_inv i2 hcs
   have i4 := pnStage_inv i3 hps
-  exact inv_final i4
+  exact inv_final (inv_of_same i4 (qbvhStage_spec h5).1)
 
 /-- **as written**: `reverse` preserves coherence when there are no pseudo-normals, the topology is not kept through
 `DELETE_BAD_TOPOLOGY_TRIANGLES` alone, and the topology computation does not newly fail on the reversed buffer -/
@@ -1149,7 +1302,7 @@ theorem reverseW_coherent_partial' [Geo V N] {dim3 : Bool} {s s' : Mesh V N}
     · cases h
     · rename_i s3 r hts
       cases h
-      obtain ⟨ev, ei, e2, e3, ef, et⟩ := topoStepW_spec hts
+      obtain ⟨ev, ei, e2, e3, ef, et, _⟩ := topoStepW_spec hts
       simp only [if_false, Bool.false_eq_true] at ev ei e2 e3 ef et hh
       refine ⟨?_, ?_, ?_⟩
       · rw [e3, ev, ei, ef, hpn0, hpn1]
